@@ -103,7 +103,9 @@ pub fn main(args: &[String]) {
         if i % 3 == 0 {
             // comments as the only separator between two tokens, and next to directives / usages
             let extra = *rng.pick(&["a/**/b\n", "a// x\nb\n", "x1/* c */y1;\n", "`define Q 1\n`Q/**/z\n", "/* c */`celldefine\n", "p/*1*//*2*/q\n", "`ifdef A/**/\nk\n`endif\n", "m //c\n`timescale 1ns/1ps\n",
-                "a +/* s */+ b;\n", "c &/**/& d;\n", "e </* le */= f;\n", "g */**/* h;\n", "`define E(p) p/**/\n`E(x)b\n", "`define F(p) /**/p\nw`F(+)+\n", "i -// m\n- j;\n"]);
+                "a +/* s */+ b;\n", "c &/**/& d;\n", "e </* le */= f;\n", "g */**/* h;\n", "`define E(p) p/**/\n`E(x)b\n", "`define F(p) /**/p\nw`F(+)+\n", "i -// m\n- j;\n",
+                // the blanks after an `ifdef name / `else belong to skipped nodes: there the comment is the only separator that reaches the output
+                "`define SM\nlogic`ifdef SM /* t */signed`endif [7:0] acc;\n", "assign y = 4'd1`ifdef WIDE 0`else /* n */5`endif ;\n", "u`ifndef NOPE /* c */v`endif w\n"]);
             if let Some(f) = c.files.iter_mut().find(|f| f.0 == c.top) { if let Some(t) = &mut f.1 { t.push_str(extra); } }
             c.flags.push("sole-separator");
         }
